@@ -269,6 +269,17 @@ func scenario(c *run.Ctx, idx int) {
 		default:
 			cands = cl.G.Next(t, cl.Head.Height()+1, r.Range(3, 12))
 		}
+		// every fourth block the miners choose a small block gas limit, so that candidates (and sub-txs of boxes) run into it
+		lim := uint64(0)
+		if bi >= 2 && r.Chance(1, 4) {
+			lim = uint64(r.Range(200000, 600000))
+		}
+		for _, n := range cl.Nodes {
+			n.GasLimit = lim
+		}
+		if lim != 0 {
+			c.Stat("blocks_with_small_gas_limit", 1)
+		}
 		c.WAL(map[string]interface{}{"scenario": idx, "block": bi, "seed": c.Seed})
 		blk := checkStep(c, cl, t, cands, r.Chance(1, 3))
 		if blk == nil {
